@@ -109,6 +109,10 @@ class Forms(HypPart):
             pool, text = pools.any_text(t, 300)
             if t.chance(40):
                 text = text.rstrip('\n')
+            if t.chance(6):
+                # a text that happens to be the name of something that exists (relative to the working directory or absolute)
+                text = t.choice(['DESIGN.md', 'MANIFEST.json', 'check', 'setup.sh', 'vf', '.', '..', '/', '/etc/hostname', 'properties.jsonl',
+                                 sys.executable]) + t.choice(['', '', '\n'])
             yield {'text': text, 'renderer': t.choice(NAMES)}
 
     def check(self, case):
